@@ -267,9 +267,47 @@ func mutJobCase(c *PRNG, res *Result, sc *SimContext) {
 	if update {
 		req.OldObject = runtime.RawExtension{Raw: raw}
 	}
+	var jcsBefore []*execution.JobConfig
+	for _, x := range jcs {
+		jcsBefore = append(jcsBefore, x.DeepCopy())
+	}
 	resp, err := hook.Handle(context.Background(), req)
 	if err != nil {
 		panic(err)
+	}
+	// what a Job receives depends on the request and on the JobConfig only, not on which Jobs
+	// were admitted before it: a probe Job (ad-hoc, by configName) admitted now, on this
+	// context, gets the same patch result as on a fresh context holding the JobConfigs as
+	// they were before the first admission
+	for k, x := range jcs {
+		probe := &execution.Job{TypeMeta: metav1.TypeMeta{APIVersion: "execution.furiko.io/v1alpha1", Kind: "Job"},
+			ObjectMeta: metav1.ObjectMeta{Namespace: "ns", Name: "probe"}}
+		probe.Spec.ConfigName = x.Name
+		praw, _ := json.Marshal(probe)
+		preq := &admissionv1.AdmissionRequest{Kind: gvkOf("Job"), Operation: admissionv1.Create, Object: runtime.RawExtension{Raw: praw}}
+		fresh := NewSimContext()
+		for _, y := range jcsBefore {
+			fresh.informers.JobConfigs.Set(y.DeepCopy())
+		}
+		if cfg, err := sc.Configs().Jobs(); err == nil {
+			fresh.SetConfig(configv1alpha1.JobExecutionConfigName, cfg)
+		}
+		h1, _ := jobmutatingwebhook.NewWebhook(sc)
+		h2, _ := jobmutatingwebhook.NewWebhook(fresh)
+		r1, e1 := h1.Handle(context.Background(), preq)
+		r2, e2 := h2.Handle(context.Background(), preq)
+		if e1 != nil || e2 != nil || r1.Allowed != r2.Allowed {
+			hit("C16/admission-result-depends-on-earlier-admissions", fmt.Sprintf("probe Job with configName %s: allowed %v / %v, errors %v / %v", x.Name, r1 != nil && r1.Allowed, r2 != nil && r2.Allowed, e1, e2))
+			continue
+		}
+		if !r1.Allowed {
+			continue
+		}
+		o1, pe1 := applyPatch(praw, r1)
+		o2, pe2 := applyPatch(praw, r2)
+		if pe1 != nil || pe2 != nil || !jsonEqual(o1, o2) {
+			hit("C16/admission-result-depends-on-earlier-admissions", fmt.Sprintf("after the admission of %s, a Job created with configName %s receives %s; on a fresh controller with the same JobConfig it receives %s (JobConfig %d of the lister)", raw, x.Name, o1, o2, k))
+		}
 	}
 	// the typed reference: what the mutator does to the decoded submission
 	typed := &execution.Job{}
